@@ -7,8 +7,15 @@ COQ = os.path.join(ROOT, "coq")
 HARNESS = os.path.join(ROOT, "harness")
 WORK = os.path.join(ROOT, "work")
 REPLAYS = os.path.join(ROOT, "replays")
-REPO = "/repo"
+# VERIF_REPO (development aid only): run the checks against another checkout of the repository
+# without touching /repo; registered commands never set it.
+REPO = os.environ.get("VERIF_REPO", "/repo")
+ALT = REPO != "/repo"
 ENV = dict(os.environ, CARGO_NET_OFFLINE="true")
+if ALT:
+    WORK = os.path.join(ROOT, "work-alt")
+    REPLAYS = os.path.join(ROOT, "replays-alt")
+    ENV["CARGO_TARGET_DIR"] = os.path.join(HARNESS, "target-alt")
 
 sys.path.insert(0, os.path.dirname(os.path.abspath(__file__)))
 from props import PROPS  # noqa: E402
@@ -124,7 +131,8 @@ def print_assumptions(prop_file):
         if b.startswith("Closed"):
             res[nm] = []
         else:
-            res[nm] = re.findall(r"^([A-Za-z_][\w.']*)\s*:", b, flags=re.M)
+            body = b.split("\n", 1)[1] if "\n" in b else ""   # drop the "Axioms:" header line
+            res[nm] = re.findall(r"^([A-Za-z_][\w.']*)\s*:", body, flags=re.M)
     return res, out
 
 
@@ -172,12 +180,14 @@ def cargo_build(profile):
             import shutil
             shutil.copy(os.path.join(REPO, "Cargo.lock"), lock)
         cmd = ["cargo", "build", "--offline"] + (["--release"] if profile == "release" else [])
+        if ALT:
+            cmd += ["--config", 'paths=["%s/cao-lang"]' % REPO]
         rc, out = run(cmd, cwd=HARNESS, timeout=3000)
         return rc == 0, out
 
 
 def harness_bin(profile):
-    return os.path.join(HARNESS, "target", profile, "cao-verif-harness")
+    return os.path.join(HARNESS, "target-alt" if ALT else "target", profile, "cao-verif-harness")
 
 
 def eval_shard(path):
@@ -257,7 +267,7 @@ def main(argv):
         n_cases = r.get("n", n_cases)
     t0 = time.time()
     os.makedirs(REPLAYS, exist_ok=True)
-    os.makedirs(os.path.join(ROOT, "evidence"), exist_ok=True)
+    os.makedirs(os.path.join(ROOT, "evidence-alt" if ALT else "evidence"), exist_ok=True)
     violations = []      # (replay dict, found_input: bool)
     known_lines = []
     notes = []
@@ -428,7 +438,7 @@ def main(argv):
         "violations": len(violations),
     }
     ev["coverage"].update(cfg.get("extra_coverage", {}))
-    with open(os.path.join(ROOT, "evidence", prop + ".json"), "w") as f:
+    with open(os.path.join(ROOT, "evidence-alt" if ALT else "evidence", prop + ".json"), "w") as f:
         json.dump(ev, f, indent=1)
 
     for line in known_lines:
